@@ -10,11 +10,20 @@ import (
 
 // richState: versioned bucket "bkt" with key "k" (two versions), key "d"
 // (delete-marked), a plain key "p/q", and a pending upload on "u" with parts 2 and 5.
-func richState(h http.Handler) (uploadID string, oldVersion string) {
-	vsym.Assert(Do(h, Req{Method: "PUT", Path: "/bkt"}).Code() == 200, "C09/setup")
-	vsym.Assert(setVersioning(h, "Enabled").Code() == 200, "C09/setup")
+// On servers without versioning (other backends, WithoutVersioning) the same
+// requests are made and the bucket simply holds k, p/q and the uploads.
+func richState(h http.Handler, kind int, versioned bool) (uploadID string, oldVersion string) {
+	if kind != kindFsSingle {
+		vsym.Assert(Do(h, Req{Method: "PUT", Path: "/bkt"}).Code() == 200, "C09/setup")
+	}
+	if versioned {
+		vsym.Assert(setVersioning(h, "Enabled").Code() == 200, "C09/setup")
+	}
 	r1 := Do(h, BodyReq("PUT", "/bkt/k", nil, []byte("v1")))
 	oldVersion = r1.Hdr.Get("x-amz-version-id")
+	if oldVersion == "" {
+		oldVersion = "0"
+	}
 	Do(h, BodyReq("PUT", "/bkt/k", nil, []byte("v2")))
 	Do(h, BodyReq("PUT", "/bkt/d", nil, []byte("dd")))
 	Do(h, Req{Method: "DELETE", Path: "/bkt/d"})
@@ -104,8 +113,28 @@ func canary(h http.Handler) {
 
 // VH_C09: one request from the grammar of the routed surface against a rich state.
 func VH_C09() {
-	h, _ := newMemServer()
-	uploadID, oldVer := richState(h)
+	kind := backendKind()
+	var opts []gofakes3.Option
+	versioned := kind == kindMem
+	hostBucket := false
+	switch vsym.Param("opts", 0) {
+	case 1:
+		opts = append(opts, gofakes3.WithHostBucket(true))
+		hostBucket = true
+	case 2:
+		opts = append(opts, gofakes3.WithAutoBucket(true))
+	case 3:
+		opts = append(opts, gofakes3.WithoutVersioning())
+		versioned = false
+	case 4:
+		opts = append(opts, gofakes3.WithUnimplementedPageError())
+	}
+	h, _ := newServerKind(kind, opts...)
+	if hostBucket {
+		// the state is built (and the canary runs) through the same host-style routing
+		h = hostStyle(h, "bkt.s3.example")
+	}
+	uploadID, oldVer := richState(h, kind, versioned)
 
 	methods := []string{"GET", "PUT", "POST", "DELETE", "HEAD", "OPTIONS", "PATCH"}
 	method := methods[vsym.Choice("method", len(methods))]
@@ -269,4 +298,22 @@ func VH_C09() {
 	checkWellFormed("C09", r, method)
 	canary(h)
 	vsym.Reach("C09/done")
+}
+
+// hostStyle presents path-style requests for bucket "bkt" the virtual-host way
+// (Host: bkt.<base>, path without the bucket); other paths are sent as they
+// are and so address keys of that bucket.
+func hostStyle(h http.Handler, host string) http.Handler {
+	return http.HandlerFunc(func(w http.ResponseWriter, r *http.Request) {
+		r.Host = host
+		p := r.URL.Path
+		if len(p) >= 4 && p[:4] == "/bkt" && (len(p) == 4 || p[4] == '/') {
+			p = p[4:]
+			if p == "" {
+				p = "/"
+			}
+			r.URL.Path = p
+		}
+		h.ServeHTTP(w, r)
+	})
 }
